@@ -4,10 +4,13 @@ import glob, json, os
 R = os.path.dirname(os.path.dirname(os.path.abspath(__file__)))
 props = [json.loads(l) for l in open(os.path.join(R, "properties.jsonl"))]
 base = json.load(open("/root/.vp/BASELINE.json"))
+# only the properties the integrator has accepted (manifest.d/ENABLED, one id per line) are claimed
+enabled = set(open(os.path.join(R, "manifest.d", "ENABLED")).read().split())
 checks = {}
 for p in sorted(glob.glob(os.path.join(R, "manifest.d", "C*.json"))):
     c = json.load(open(p))
-    checks[c["property_id"]] = c
+    if c["property_id"] in enabled:
+        checks[c["property_id"]] = c
 na_reasons = {}
 nap = os.path.join(R, "manifest.d", "not_applicable.json")
 if os.path.exists(nap):
@@ -34,7 +37,8 @@ man = {
 json.dump(man, open(os.path.join(R, "MANIFEST.json"), "w"), indent=1)
 fs = []
 for p in sorted(glob.glob(os.path.join(R, "known.d", "C*.json"))):
-    fs += json.load(open(p)).get("findings", [])
+    if os.path.basename(p)[:-5] in enabled:
+        fs += json.load(open(p)).get("findings", [])
 json.dump({"_format": "status=open entries are printed as KNOWN-FINDING lines when the run reproduces them; status=fixed entries suppress nothing (their 'fixed' line is the record of the repair)",
            "findings": fs}, open(os.path.join(R, "known-findings.json"), "w"), indent=1)
 print("manifest: %d checks, %d not claimed; findings: %d" % (len(checks), len(man["not_applicable"]), len(fs)))
